@@ -33,7 +33,6 @@ CFG = dict(
     checker="check_case",
     n=dict(quick=120, thorough=6000),
     shard=400,
-    deps=["C02", "C03", "C04", "C05", "C07", "C43"],
     classify=classify,
     rule="datastore histories of 30-200 events over a universe of 3 workload endpoints (2 local, 1 remote), 2 host endpoints, 3 profiles "
          "(rules + labels-to-apply; endpoints may also list the namespace profile kns.ns1 and a missing profile), 3 tiers, 4 policies (3 global + 1 namespaced; tier default/tier-1/tier-2 possibly absent, order "
@@ -74,7 +73,35 @@ CFG = dict(
 )
 
 
+def _imported_files():
+    """The files of OTHER properties' directories that C01's theories really depend on (transitive closure by coqdep).
+    Only these are built (by dependency) and scanned: another builder's unrelated work-in-progress file in C02/C03/C04/
+    C05/C07/C43 must not turn this check red."""
+    deps = vlib._coqdep()
+    seen, stack = set(), list(vlib.prop_targets("C01"))
+    while stack:
+        t = stack.pop()
+        if t in seen:
+            continue
+        seen.add(t)
+        stack.extend(deps.get(t, []))
+    return sorted(os.path.join(vlib.COQ, t[:-1]) for t in seen if "/C01/" not in t and "/Common/" not in t)
+
+
 def run(ctx):
+    import re
+    bad = []
+    for f in _imported_files():
+        if not os.path.exists(f):
+            continue
+        txt = re.sub(r"\(\*.*?\*\)", " ", open(f).read(), flags=re.S)
+        for i, line in enumerate(txt.split("\n"), 1):
+            if vlib.FORBIDDEN.search(line):
+                bad.append("%s:%d: %s" % (os.path.relpath(f, vlib.ROOT), i, line.strip()))
+    if bad:
+        rp = vlib.write_replay(ctx, "proof", dict(kind="proof-broken", unchecked="forbidden declarations in imported theories: " + "; ".join(bad)))
+        print("VIOLATION property=C01 replay=%s no-failing-input-found" % rp, flush=True)
+        return 1
     return vlib.standard_flow(ctx, CFG)
 
 
